@@ -1373,7 +1373,9 @@ def _check(run: common.Run):
                "failures_matching_known_findings": dict(sweep_known), "api_family_failures": len(api_fail)},
         unmodelled=["processing.find_replace / the matcher (C12): the wrappers are modelled over the list of spans it yields",
                     "ast.parse positions (CPython): tok_loc is their reference definition, validated on every node",
-                    "pattern_matching.sub/subn (C14)", "the file walk and argument parsing of the command-line tool"],
+                    "pattern_matching.sub/subn (C14)", "the file walk and argument parsing of the command-line tool",
+                    "the CPython tokenizer inside core.has_ignore_comment (_ignore_comment_linenos): its verdict (lines with a "
+                    "matching COMMENT token, or 'tokenize raised') is an input of the model, recomputed by harness/c13.py::ign_coms"],
         trusted_base=common.TRUSTED_BASE_COMMON + [
             "harness/c13.py: node -> (decorator positions, attributes, is_def) reader, fake-node builder, digest mirror "
             "(dg/str_obs/grid_obs are re-implemented in Python; a mismatch in either direction is reported)",
